@@ -40,6 +40,7 @@ from mc import ScopeUnit, FAILED
 from mc.linalg import dense, deltas
 
 from prysm.propagation import Wavefront
+from prysm.conf import config
 from prysm.x.optym import activation as act
 from prysm.x.optym import cost as costmod
 
@@ -48,6 +49,8 @@ H0 = 2.0 ** -10          # step in units of the natural input scale (power of tw
 CR = 4.0                 # multiple of the observed extrapolation residual
 KE = 1e3                 # multiple of eps * |f| / h  (rounding of a central difference)
 TINY = 1e-300
+EPS32 = float(np.finfo(np.float32).eps)
+K32 = 100.0              # multiple of eps(float32) x conditioning allowed to a gradient evaluated on float32 data
 
 
 # ---------------------------------------------------------------------------------------------
@@ -123,7 +126,7 @@ def fd_jacobian(R, fwd, x, h, sig, complex_dirs=False, fscale=0.0):
     return {'y0': y0, 'J': J, 'Res': Res, 'mag': mag, 'h': hs, 'n': n, 'complex': complex_dirs}
 
 
-def judge(R, jac, ybar, got, sig, what, gscale):
+def judge(R, jac, ybar, got, sig, what, gscale, extra=0.0):
     """Compare the companion's input gradient with the measured directional derivatives of Re<ybar, f>.
 
     got : validated ndarray of the input's shape (complex for complex inputs) or None.
@@ -138,10 +141,62 @@ def judge(R, jac, ybar, got, sig, what, gscale):
              f'{what}: finite-difference oracle too loose (max tol {float(tol.max()):.2e}); harness step needs attention')
     if got is None:
         return
+    tol = tol + extra                              # rounding of the implementation on reduced-precision data (never part of the guard above)
     g = got.ravel()
     vec = np.concatenate([g.real, g.imag]) if jac['complex'] else g
     R.expect_close(vec, want, tol, sig, what)
     R.nontrivial(bool(np.any(np.abs(want) > tol)))
+
+
+def rel_condition(R, fun, inputs):
+    """Componentwise condition of fun at inputs:  |out| + sum_j |d out / d u_j| |u_j|  (float64, relative bumps of 2^-20).
+
+    eps(float32) times this bounds the error a backward-stable float32 evaluation of the same function may make.
+    Returns None when the function cannot be evaluated (reported elsewhere).
+    """
+    d = 2.0 ** -20
+    try:
+        base = np.asarray(fun([np.array(u, dtype=float) for u in inputs]), dtype=float).ravel()
+        R.tick()
+        cond = np.abs(base)
+        for i, u in enumerate(inputs):
+            u = np.array(u, dtype=float)
+            for j in range(u.size):
+                if u.flat[j] == 0:
+                    continue
+                ins = [np.array(v, dtype=float) for v in inputs]
+                ins[i].flat[j] = ins[i].flat[j] * (1 + d)
+                o = np.asarray(fun(ins), dtype=float).ravel()
+                R.tick()
+                if o.shape == base.shape:
+                    dv = np.abs(o - base) / d
+                    cond = cond + np.where(np.isfinite(dv), dv, 0.0)
+        return np.where(np.isfinite(cond), cond, 0.0)
+    except Exception:   # noqa
+        return None
+
+
+def wdtype(prec):
+    return np.float32 if prec == 32 else np.float64
+
+
+def representable(a, prec):
+    """the operating point as the working precision holds it, returned in float64 (so both evaluations see the same numbers)"""
+    if isinstance(a, np.ndarray):
+        return a.astype(wdtype(prec)).astype(float)
+    return float(wdtype(prec)(a))
+
+
+def with_precision(run):
+    """run the case under config.precision = case['prec'] (default 64) and restore 64 afterwards"""
+    def wrapped(case, seed, R):
+        config.precision = case.get('prec', 64)
+        try:
+            return run(case, seed, R)
+        finally:
+            config.precision = 64
+    wrapped.__name__ = run.__name__
+    return wrapped
 
 
 def upstreams(shape, seed, salt, complex_=False):
@@ -287,10 +342,14 @@ def act_points(layout, x0):
     raise ValueError(layout)
 
 
+@with_precision
 def run_act(case, seed, R):
     cls, a, x0, y0, layout = case['node'], case['a'], case['x0'], case['y0'], case['layout']
+    prec = case.get('prec', 64)
     node = ACT[cls](a=a, x0=x0, y0=y0)
     x = act_points(layout, x0)
+    if prec == 32:
+        x = representable(x, 32)
     xa = np.asarray(x)
     cell = f"a{'=1' if a == 1 else '!=1'}" + (':offset' if (x0 or y0) else '')
     sig = f'{cls}.backprop:' + ('int-input:' if layout == 'int' else 'grad:') + cell
@@ -300,12 +359,20 @@ def run_act(case, seed, R):
         return
     keep = np.array(xa, copy=True)
     arg = x if layout == 'scalar' else xa
+    extra = 0.0
+    if prec == 32:
+        sig = f'{cls}.backprop:float32:' + cell
+        arg = xa.astype(np.float32)
+        cond = rel_condition(R, lambda ins: ACT[cls](a=float(ins[1][0]), x0=float(ins[1][1]), y0=float(ins[1][2])).backprop(ins[0]),
+                             [xa, np.array([a, x0, y0], dtype=float)])
+        extra = K32 * EPS32 * ((0.0 if cond is None else cond) + a * (1 + abs(y0)))
     bp = _valid(R, R.call(node.backprop, arg, sig=sig), sig, shape=xa.shape, what='backprop(x)')
-    R.expect_equal(xa, keep, f'{cls}.backprop:mutates-input', 'backprop changed the array passed to it')
+    if prec == 64:
+        R.expect_equal(xa, keep, f'{cls}.backprop:mutates-input', 'backprop changed the array passed to it')
     for name, ybar in upstreams(xa.shape, seed, 51):
-        judge(R, jac, ybar, None if bp is None else ybar * bp, sig,
-              f'{cls}(a={a},x0={x0},y0={y0}) layout={layout} ybar={name}', a)
-    R.outcome(layout)
+        judge(R, jac, ybar, None if bp is None else ybar * bp.astype(float), sig,
+              f'{cls}(a={a},x0={x0},y0={y0}) layout={layout} prec={prec} ybar={name}', a, extra=np.abs(ybar).ravel() * extra)
+    R.outcome(layout if prec == 64 else layout + ':float32')
 
 
 # ---------------------------------------------------------------------------------------------
@@ -368,30 +435,48 @@ def make_estimator(kind, shape, seed, noise='seeded'):
     return g, tau
 
 
+def _sm_extra(R, node, x, ybar, gs):
+    """float32 allowance for a stateful node: eps32 x (componentwise condition of forward+backprop in x and ybar + natural scale)"""
+    def fun(ins):
+        node.forward(ins[0])
+        return node.backprop(ins[1])
+    cond = rel_condition(R, fun, [x, ybar])
+    return K32 * EPS32 * ((0.0 if cond is None else cond) + gs * float(np.abs(ybar).max()))
+
+
+@with_precision
 def run_softmax(case, seed, R):
     shape, kind, tier = tuple(case['shape']), case['est'], case['tier']
+    prec = case.get('prec', 64)
     rows = row_alphabet(shape[-1], tier, small=(kind != 'softmax'))
     x = chunk_array(rows, shape, case['chunk'])
     node, tau = make_estimator(kind, shape, seed, case.get('noise', 'seeded'))
     cls = type(node).__name__
-    sig = f'{cls}.backprop:grad:ndim={len(shape)}'
+    sig = f'{cls}.backprop:grad:ndim={len(shape)}' if prec == 64 else f'{cls}.backprop:float32'
+    dt = wdtype(prec)
     jac = fd_jacobian(R, node.forward, x, H0 * tau, f'{cls}.backprop:grad', fscale=1.0)
     if jac is None:
         return
-    out = R.call(node.forward, x.copy(), sig=f'{cls}.backprop:grad:forward')
-    if out is FAILED:
-        return
-    for name, ybar in upstreams(shape, seed, 61):
-        got = _valid(R, R.call(node.backprop, ybar.copy(), sig=sig), sig, shape=shape, what='backprop(grad)')
-        judge(R, jac, ybar, got, sig, f'{cls} tau={tau} x={x.tolist()} ybar={name}', 1 / tau)
+    for i, (name, ybar) in enumerate(upstreams(shape, seed, 61)):
+        ybar = representable(ybar, prec)
+        extra = _sm_extra(R, node, x, ybar, 1 / tau) if prec == 32 else 0.0
+        if i == 0 or prec == 32:                   # float64: forward once, then every backprop on the same node state
+            out = R.call(node.forward, x.astype(dt), sig=f'{cls}.backprop:grad:forward', hygiene=(prec == 64))
+            if out is FAILED:
+                return
+        got = _valid(R, R.call(node.backprop, ybar.astype(dt), sig=sig, hygiene=(prec == 64)), sig, shape=shape, what='backprop(grad)')
+        judge(R, jac, ybar, None if got is None else got.astype(float), sig, f'{cls} tau={tau} prec={prec} x={x.tolist()} ybar={name}', 1 / tau, extra=extra)
     R.outcome('ties' if any(len(set(r)) < len(r) for r in x.reshape(-1, shape[-1]).tolist()) else 'distinct')
 
 
 LEVELS = {'int3': 3, 'arr0134': [0, 1, 3, 4]}
 
 
+@with_precision
 def run_encoder(case, seed, R):
     lead, kind, lv, tier = tuple(case['lead']), case['est'], case['levels'], case['tier']
+    prec = case.get('prec', 64)
+    dt = wdtype(prec)
     levels = LEVELS[lv]
     K = levels if isinstance(levels, int) else len(levels)
     shape = lead + (K,)
@@ -399,17 +484,21 @@ def run_encoder(case, seed, R):
     x = chunk_array(rows, shape, case['chunk'])
     est, tau = make_estimator(kind, shape, seed)
     enc = act.DiscreteEncoder(est, levels if isinstance(levels, int) else np.array(levels))
-    sig = f'DiscreteEncoder.backprop:ndim={len(shape)}'
+    sig = f'DiscreteEncoder.backprop:ndim={len(shape)}' if prec == 64 else 'DiscreteEncoder.backprop:float32'
     lmax = float(K - 1 if isinstance(levels, int) else max(levels))
     jac = fd_jacobian(R, enc.forward, x, H0 * tau, 'DiscreteEncoder.backprop:grad', fscale=lmax)
     if jac is None:
         return
-    out = _valid(R, R.call(enc.forward, x.copy(), sig=sig + ':forward'), sig + ':forward', shape=lead, what='forward(x)')
-    if out is None:
-        return
-    for name, ybar in upstreams(lead, seed, 71):
-        got = _valid(R, R.call(enc.backprop, ybar.copy(), sig=sig), sig, shape=shape, what='backprop(grad)')
-        judge(R, jac, ybar, got, sig, f'DiscreteEncoder({kind}, {lv}) x{list(shape)}={x.tolist()} ybar={name}', lmax / tau)
+    for i, (name, ybar) in enumerate(upstreams(lead, seed, 71)):
+        ybar = representable(ybar, prec)
+        extra = _sm_extra(R, enc, x, ybar, lmax / tau) if prec == 32 else 0.0
+        if i == 0 or prec == 32:
+            out = _valid(R, R.call(enc.forward, x.astype(dt), sig=sig + ':forward', hygiene=(prec == 64)), sig + ':forward', shape=lead, what='forward(x)')
+            if out is None:
+                return
+        got = _valid(R, R.call(enc.backprop, ybar.astype(dt), sig=sig, hygiene=(prec == 64)), sig, shape=shape, what='backprop(grad)')
+        judge(R, jac, ybar, None if got is None else got.astype(float), sig,
+              f'DiscreteEncoder({kind}, {lv}) prec={prec} x{list(shape)}={x.tolist()} ybar={name}', lmax / tau, extra=extra)
     R.outcome(f'ndim={len(shape)}')
 
 
@@ -422,7 +511,7 @@ COSTS = {'mean_square_error': costmod.mean_square_error,
 
 MODEL_PATS = {'mean_square_error': ['zeros', 'ramp', 'small', 'large', 'dense', 'eqD'],
               'bias_and_gain_invariant_error': ['ramp', 'negramp', 'small', 'large', 'dense', 'affineD'],
-              'negative_loglikelihood': ['half', 'small', 'near1', 'spread', 'mixed', 'dense']}
+              'negative_loglikelihood': ['half', 'small', 'near1', 'spread', 'mixed', 'dense', 'sat']}
 DATA_PATS = {'mean_square_error': ['zeros', 'ramp2', 'dense', 'large'],
              'bias_and_gain_invariant_error': ['ramp2', 'dense', 'offset'],
              'negative_loglikelihood': ['s0', 's1', 's0.3', 'bits', 'dense', 'eqy']}
@@ -482,21 +571,29 @@ def cost_model(fn, shape, mpat, D, seed):
     elif mpat == 'mixed':
         al = [1e-3, 0.5, 0.999, 0.2, 0.9, 0.01]
         v = np.array([al[(k * 5 + 1) % len(al)] for k in range(n)])
+    elif mpat == 'sat':                            # saturated predictions, still resolved by float32
+        al = [1e-5, 1 - 1e-5, 1e-6, 0.5, 1 - 1e-6, 1e-4, 1 - 1e-3, 3e-6]
+        v = np.array([al[k % len(al)] for k in range(n)])
     else:
         raise ValueError(mpat)
     return v.reshape(shape).astype(float)
 
 
+@with_precision
 def run_cost(case, seed, R):
     fn, shape, mpat, dpat, mk = case['fn'], tuple(case['shape']), case['model'], case['data'], case['mask']
+    prec = case.get('prec', 64)
+    dt = wdtype(prec)
     f = COSTS[fn]
     D = cost_data(fn, shape, dpat, seed)
-    M = cost_model(fn, shape, mpat, D, seed)
+    M = representable(cost_model(fn, shape, mpat, D, seed), prec)
     if D is None:
         D = M.copy()                               # 'eqy': the optimum of the likelihood
+    D = representable(D, prec)
+    Dw = D.astype(dt) if isinstance(D, np.ndarray) else D
     mask = None if mk is None else np.array(mk, dtype=bool).reshape(shape)
     sel = np.ones(shape, bool) if mask is None else mask
-    sig = f"{fn}:grad:{'unmasked' if mask is None else 'masked'}"
+    sig = f"{fn}:grad:{'unmasked' if mask is None else 'masked'}" + (':float32' if prec == 32 else '')
     nk = int(sel.sum())
     fs = 0.0
     if fn == 'mean_square_error':
@@ -517,27 +614,42 @@ def run_cost(case, seed, R):
     def c(m):
         out = f(m, D, mask)
         return out[0]
-    jac = fd_jacobian(R, c, M, h, sig.replace(':grad', ':cost'), fscale=fs)
+    jac = fd_jacobian(R, c, M, h, sig.replace(':grad', ':cost'), fscale=fs)     # float64 evaluations of the same function (same config.precision)
     if jac is None:
         return
     if jac['y0'].shape != ():
         R.violation(sig, f'cost is not a scalar: shape {jac["y0"].shape}')
         return
     keep = M.copy()
-    out = R.call(f, M, D, mask, sig=sig)
+    Mw = M.astype(dt)
+    out = R.call(f, Mw, Dw, mask, sig=sig)
     if out is FAILED:
         return
+    extra = 0.0
+    if prec == 32:
+        def both(ins):
+            o = f(ins[0], ins[1] if isinstance(D, np.ndarray) else float(ins[1]), mask)
+            return np.concatenate([[o[0]], np.asarray(o[1], dtype=float).ravel()])
+        cond = rel_condition(R, both, [M, D])
+        gsv = np.broadcast_to(np.asarray(gs, dtype=float), shape).ravel() * (sel.ravel() if mask is not None else 1.0)
+        if cond is not None:
+            extra = K32 * EPS32 * (cond[1:] + gsv)
+            cost32 = _valid(R, out[0] if isinstance(out, tuple) and len(out) == 2 else FAILED, sig, shape=(), what='cost')
+            if cost32 is not None:
+                R.expect_close(float(cost32), float(jac['y0']), K32 * EPS32 * (cond[0] + fs) + TINY, sig.replace(':grad', ':cost'),
+                               'cost returned for float32 data differs from the float64 evaluation of the same function at the same point')
     try:
         grad = out[1]
     except Exception:   # noqa
         R.violation(sig, 'cost function did not return (cost, gradient)')
         return
     got = _valid(R, grad, sig, shape=shape, what='gradient')
-    judge(R, jac, np.ones(()), got, sig, f'{fn} model={mpat} data={dpat} shape={list(shape)} mask={mk}', gs)
+    judge(R, jac, np.ones(()), None if got is None else got.astype(float), sig,
+          f'{fn} model={mpat} data={dpat} shape={list(shape)} mask={mk} prec={prec}', gs, extra=extra)
     if got is not None and mask is not None:
         R.expect(np.all(got[~mask] == 0), sig + ':outside', 'non-zero gradient on masked-out elements')
-    R.expect_equal(M, keep, f'{fn}:mutates-input', 'cost function changed the model array')
-    R.outcome('masked' if mask is not None else 'unmasked')
+    R.expect_equal(Mw, keep.astype(dt), f'{fn}:mutates-input', 'cost function changed the model array')
+    R.outcome(('masked' if mask is not None else 'unmasked') + (':float32' if prec == 32 else ''))
 
 
 def mask_list(shape, tier, minkeep):
@@ -744,6 +856,77 @@ def param_history_cases():
 
 
 # ---------------------------------------------------------------------------------------------
+# instance interleaving: two live instances of a stateful node class, reverse-mode call orders
+
+STATEFUL = ['softmax', 'gumbel', 'enc_softmax', 'enc_gumbel']
+# every interleaving of {fwd A, fwd B, bwd A, bwd B} with fwd before bwd per instance, then one instance used twice
+INTERLEAVINGS = {'fA,bA,fB,bB': ['fA', 'bA', 'fB', 'bB'], 'fA,fB,bA,bB': ['fA', 'fB', 'bA', 'bB'], 'fA,fB,bB,bA': ['fA', 'fB', 'bB', 'bA'],
+                 'fB,fA,bA,bB': ['fB', 'fA', 'bA', 'bB'], 'fB,fA,bB,bA': ['fB', 'fA', 'bB', 'bA'], 'fB,bB,fA,bA': ['fB', 'bB', 'fA', 'bA'],
+                 'reuse:fA,bA,fA2,bA2': ['fA', 'bA', 'fA2', 'bA2'], 'reuse:fA,fA2,bA2': ['fA', 'fA2', 'bA2'],
+                 'reuse:fA,bA,bA': ['fA', 'bA', 'bA']}
+
+
+def _make_stateful(kind, shape, seed, which):
+    """instance 'A' or 'B' of the class: same class and input shape, different public parameters, own frozen noise"""
+    tau = {'A': 0.7, 'B': 1.3}[which]
+    lv = {'A': [0, 1, 3], 'B': [0, 2, 5]}[which]
+
+    def gumbel():
+        g = act.GumbelSoftmax(tau=tau)               # constructed exactly as a user does: defaults for everything else
+        rng = np.random.default_rng([int(seed), 78, ord(which), *[int(v) for v in shape]])
+        g.rng = FrozenRNG(rng.uniform(size=shape))
+        return g
+    if kind == 'softmax':
+        return act.Softmax()
+    if kind == 'gumbel':
+        return gumbel()
+    if kind == 'enc_softmax':
+        return act.DiscreteEncoder(act.Softmax(), np.array(lv))
+    return act.DiscreteEncoder(gumbel(), np.array(lv))
+
+
+def run_interleave(case, seed, R):
+    kind, shape, order = case['kind'], tuple(case['shape']), case['order']
+    cls = {'softmax': 'Softmax', 'gumbel': 'GumbelSoftmax'}.get(kind, 'DiscreteEncoder')
+    sig = f'{cls}.backprop:interleaved-instances' if not order.startswith('reuse') else f'{cls}.backprop:instance-reuse'
+    rows = row_alphabet(shape[-1], 'quick', small=True)
+    nch = nchunks(rows, shape)
+    xs = {'A': chunk_array(rows, shape, (case['xa'] * nch) // 4), 'B': chunk_array(rows, shape, (case['xb'] * nch) // 4 + 1),
+          'A2': chunk_array(rows, shape, (case['xb'] * nch) // 4 + 2)}
+    oshape = shape[:-1] if kind.startswith('enc') else shape
+    ys = {k: dense(oshape, seed, 95 + i, complex_=False) for i, k in enumerate(('A', 'B', 'A2'))}
+
+    # reference: an instance of the same configuration run alone (forward immediately followed by backprop), before A and B exist
+    ref = {}
+    for k in ('A', 'B', 'A2'):
+        n0 = _make_stateful(kind, shape, seed, k[0])
+        f0 = _valid(R, R.call(n0.forward, xs[k].copy(), sig=sig + ':alone', hygiene=False), sig + ':alone', shape=oshape, what='forward alone')
+        b0 = _valid(R, R.call(n0.backprop, ys[k].copy(), sig=sig + ':alone', hygiene=False), sig + ':alone', shape=shape, what='backprop alone')
+        if f0 is None or b0 is None:
+            return
+        ref[k] = (f0.copy(), b0.copy())
+    nodes = {'A': _make_stateful(kind, shape, seed, 'A'), 'B': _make_stateful(kind, shape, seed, 'B')}
+    last = {}
+    for step in INTERLEAVINGS[order]:
+        op, k = step[0], step[1:]
+        node = nodes[k[0]]
+        if op == 'f':
+            out = _valid(R, R.call(node.forward, xs[k].copy(), sig=sig, hygiene=False), sig, shape=oshape, what=f'forward {k}')
+            last[k[0]] = k
+            if out is not None:
+                R.expect_close(out, ref[k][0], 8 * EPS * np.abs(ref[k][0]) + TINY, sig.replace('backprop', 'forward'),
+                               f'{order}: forward of instance {k} differs from the same instance run alone')
+        else:
+            k = last.get(k[0], k)
+            got = _valid(R, R.call(node.backprop, ys[k].copy(), sig=sig, hygiene=False), sig, shape=shape, what=f'backprop {k}')
+            if got is not None:
+                R.expect_close(got, ref[k][1], 8 * EPS * np.abs(ref[k][1]) + 8 * EPS * float(np.abs(ref[k][1]).max()) + TINY, sig,
+                               f'{kind} order {order}: backprop of instance {k} differs from the same instance run alone (state shared between instances or calls?)')
+                R.nontrivial(bool(np.any(ref[k][1] != 0)))
+    R.outcome(order)
+
+
+# ---------------------------------------------------------------------------------------------
 # plan
 
 def units(tier, seed):
@@ -755,22 +938,33 @@ def units(tier, seed):
     act_cases = [{'node': c, 'a': a, 'x0': x0, 'y0': y0, 'layout': lay}
                  for lay in ACT_LAYOUTS for c in ACT for a in (1, 0.3, 4)
                  for x0 in (0, 0.7, -0.7) for y0 in (0, 0.7, -0.7)]
+    act_cases += [dict(c, prec=32) for c in act_cases if c['layout'] in ('vec', 'mat', 'cube')]
     sm_shapes = [[1, 2], [2, 2], [3, 2], [2, 3], [3, 3], [4, 3], [2, 4], [4, 4],
                  [2, 2, 2], [2, 3, 2], [2, 2, 3], [3, 2, 3], [2, 3, 3], [2, 2, 4]] + ([] if q else [[1, 5], [3, 1, 3], [2, 1, 2, 3]])
     sm_cases = [{'shape': s, 'est': 'softmax', 'tier': tier, 'chunk': j}
                 for s in sm_shapes for j in range(nchunks(row_alphabet(s[-1], tier), s))]
+    p32_shapes = [[2, 3], [3, 2], [2, 2, 3]]
+    sm_cases += [dict(c, prec=32) for c in sm_cases if c['shape'] in p32_shapes]
     gs_shapes = [[2, 2], [3, 2], [2, 3], [3, 3], [2, 4], [2, 2, 2], [2, 3, 2], [3, 2, 3], [2, 3, 3]]
     gs_cases = [{'shape': s, 'est': f'gumbel{tau}', 'noise': nz, 'tier': tier, 'chunk': j}
                 for s in gs_shapes for tau in (1.0, 0.2) for nz in ('const', 'seeded')
                 for j in range(nchunks(row_alphabet(s[-1], tier, small=True), s))]
+    gs_cases += [dict(c, prec=32) for c in gs_cases if c['shape'] in p32_shapes]
     leads = [[1], [2], [3], [4], [2, 2], [2, 3], [3, 2], [3, 3], [2, 4], [4, 4], [1, 3], [2, 1, 2]]
     enc_cases = [{'lead': ld, 'est': e, 'levels': lv, 'tier': tier, 'chunk': j}
                  for ld in leads for e in ('softmax', 'gumbel1.0', 'gumbel0.2') for lv in LEVELS
                  for j in range(nchunks(row_alphabet(3 if lv == 'int3' else 4, tier, small=True), ld + [0]))]
+    enc_cases += [dict(c, prec=32) for c in enc_cases if c['lead'] in ([2], [2, 2])]
     cshapes = [[2, 2], [2, 3], [4], [2, 2, 2]] + ([] if q else [[3, 3], [1, 5]])
     cost_cases = [{'fn': fn, 'shape': s, 'model': mp, 'data': dp, 'mask': mk}
                   for fn in COSTS for s in cshapes for mk in mask_list(s, tier, 2 if fn.startswith('bias') else 1)
                   for mp in MODEL_PATS[fn] for dp in DATA_PATS[fn]]
+    cost_cases += [dict(c, prec=32) for c in cost_cases]
+    il_cases = [{'kind': k, 'shape': s, 'order': o, 'xa': xa, 'xb': xb}
+                for k in STATEFUL for s in ([2, 3], [3, 3], [2, 2, 3]) for o in INTERLEAVINGS for xa, xb in ((0, 1), (2, 0), (3, 3))]
+    p32 = ' Also under config.precision=32 on float32 data (operating point = the float32-representable values): the gradient returned for float32 data ' \
+          'must equal the float64 finite-difference derivative of the SAME function (same config.precision, so precision-dependent guards are active) within the ' \
+          'finite-difference tolerance + 100 eps32 x (componentwise condition |g| + sum|dg/du_j||u_j| measured in float64 + natural gradient scale).'
     step = 'Jacobian of the real forward routine by Richardson-extrapolated central differences (h, h/2; h = 2^-10 of the natural ' \
            'input scale) along EVERY basis direction of the input; tolerance = 4 x observed extrapolation residual + 1e3 eps |f|/h; ' \
            'upstream gradients: every basis element of the output + one seeded dense array. '
@@ -786,7 +980,7 @@ def units(tier, seed):
         ScopeUnit('node_act', act_cases, run_act,
                   step + 'Tanh/Arctan/Softplus/Sigmoid x a in {1,0.3,4} x x0 in {0,+-0.7} x y0 in {0,+-0.7} x layout {1-D, 2-D, 3-D, integer 2-D array, python scalar}; '
                   'every array holds the whole value alphabet {0,+-1e-3,0.5,-1,+-3,+-40,x0,x0+1e-3,x0-0.25}; verified quantity ybar*backprop(x) '
-                  '(backprop takes the forward input and returns the local derivative, as test_activation.py asserts); input array must not be modified'),
+                  '(backprop takes the forward input and returns the local derivative, as test_activation.py asserts); input array must not be modified.' + p32),
         ScopeUnit('node_softmax', sm_cases, run_softmax,
                   step + f'Softmax over the last axis: shapes {sm_shapes}; for every shape EVERY logit row of the value alphabet '
                   '{0,+-1e-3,+-1,+-30}^K (K=4: {0,1e-3,1,-30}^4) appears in some array (rows are packed consecutively, so rows of one array differ): '
@@ -801,7 +995,15 @@ def units(tier, seed):
                   step + f'mean_square_error / bias_and_gain_invariant_error / negative_loglikelihood: shapes {cshapes} x mask in {{None}} + every non-empty subset '
                   '(n<=4; larger: full, each single exclusion, each single element, alternating, halves) x model patterns x data patterns (incl. the optimum, '
                   'zeros, +-1e-3, +-1e3, scalar targets); every basis direction of the model incl. masked-out elements (gradient must be exactly 0 there); '
-                  'operating points where the cost itself is 0/0 (constant model under the mask for the gain fit) are skipped and counted'),
+                  'operating points where the cost itself is 0/0 (constant model under the mask for the gain fit) are skipped and counted; likelihood predictions include the '
+                  'saturated alphabet {1e-4,1e-5,3e-6,1e-6,1-1e-3,1-1e-5,1-1e-6}; float32: the returned cost must also match the float64 evaluation.' + p32),
+        ScopeUnit('node_interleave', il_cases, run_interleave,
+                  'two live instances A, B of every stateful node class (Softmax, GumbelSoftmax with frozen noise, DiscreteEncoder over either), equal input shapes '
+                  '(2-D non-square, square, 3-D), different parameters (tau 0.7/1.3, levels) and operating points (3 pairs of row-alphabet chunks): '
+                  'ALL 6 interleavings of {fwd A, fwd B, bwd A, bwd B} with forward before backprop per instance, plus one instance used twice '
+                  f'({sorted(k for k in INTERLEAVINGS if k.startswith("reuse"))}: the latest forward defines the state; a repeated backprop repeats its answer); '
+                  'every forward and backprop must equal (8 eps) that of an identically configured instance run alone -- the alone run is verified against '
+                  'directional derivatives by the other units; nodes are constructed with defaults exactly as a user does'),
         ScopeUnit('node_param_history', param_history_cases(), run_param_history,
                   step + 'public parameters changed on an EXISTING node: Tanh/Arctan/Softplus/Sigmoid .a/.x0/.y0 (two backgrounds), GumbelSoftmax.tau, '
                   'DiscreteEncoder.est.tau and DiscreteEncoder.levels (same and different K; Softmax and frozen Gumbel estimator); EVERY ordered pair (p0,p1), p0!=p1, of '
